@@ -170,6 +170,18 @@ func runMint(seed uint64, n int, out *Out) {
 			}
 			// C13 monitor: phase totals
 			if m.PhaseStep != curStep {
+				// the phase that just ended was observed from its first block to its last: what it minted in
+				// total (however many blocks the implementation let it last) is its provision to within a token
+				if curStep >= 1 && int(curStep) <= len(p.Phases) && phaseBlocksSeen > 0 {
+					nbPrev := p.Phases[curStep-1].YearCoefficient.Mul(sdkmath.LegacyNewDec(p.BlocksPerYear)).TruncateInt().Int64()
+					diff := sdkmath.LegacyNewDecFromInt(phaseMinted).Sub(phaseProv).Abs()
+					tol := sdkmath.LegacyNewDec(1).Add(sdkmath.LegacyNewDecWithPrec(nbPrev+1, 18))
+					if diff.GT(tol) && !phaseProv.IsNegative() {
+						out.Fail(MonFail{Property: "C13", Monitor: "phase_total", Class: "beginblock", History: h,
+							Detail: fmt.Sprintf("phase %d lasted %d blocks (provision spread over %d), minted %s in total, provision %s", curStep, phaseBlocksSeen, nbPrev, phaseMinted, phaseProv)})
+					}
+					out.Count("phase.exited")
+				}
 				curStep = m.PhaseStep
 				phaseMinted = sdkmath.ZeroInt()
 				phaseProv = m.PhaseProvisions
